@@ -82,7 +82,7 @@ def run(tier, seed):
     try:
         vh = core.build_harness()
         # ---- message algebra
-        n = 6000 if tier == "quick" else 300000
+        n = 6000 if tier == "quick" else 150000
         cases = [msggen.case(rng) for _ in range(n)]
         cin, cexp = os.path.join(wd, "msg.cases.ndjson"), os.path.join(wd, "msg.exp.ndjson")
         with open(cin, "w") as f:
@@ -111,7 +111,7 @@ def run(tier, seed):
         rc, err = core.run_harness(vh, "model", ["--dump-gcc", "x", "--out", gcc_f])
         if rc != 0:
             raise core.ToolError("dump-gcc failed")
-        trees = [rand_tree(rng, 3) for _ in range(1500 if tier == "quick" else 60000)]
+        trees = [rand_tree(rng, 3) for _ in range(1500 if tier == "quick" else 20000)]
         with open(trees_f, "w") as f:
             for t in trees:
                 f.write(json.dumps(t, separators=(",", ":")) + "\n")
